@@ -117,14 +117,15 @@ def run(tier, seed, **opts):
         col.case(pg.case_key(case), nontrivial=nontrivial, sample=sample)
         stats[fam] = stats.get(fam, 0) + 1
 
-    # exhaustive tiny scope
+    # exhaustive tiny scopes
+    scopes = pg.tiny_scopes(tier)
     tiny_n = 0
-    tiny_kw = dict(lengths=(1, 2, 7), bpts=(1.0, 2.5), max_contigs=2, max_cuts=1) if quick else dict(lengths=(1, 2, 7), bpts=(1.0, 2.5), max_contigs=2, max_cuts=2)
-    for case in pg.tiny_exhaustive(**tiny_kw):
-        tiny_n += 1
-        one(case, "tiny", nontrivial_hint=pg.n_cut_pieces(case) >= 2)
-        if col.full:
-            break
+    for kw in scopes:
+        for case in pg.tiny_exhaustive(**kw):
+            tiny_n += 1
+            one(case, "tiny", nontrivial_hint=pg.n_cut_pieces(case) >= 2)
+            if col.full:
+                break
     for fam, case, _ in pg.model_cases(tier, rng):
         if col.full:
             break
@@ -132,15 +133,15 @@ def run(tier, seed, **opts):
         roll = rng.random()
         if roll < 0.25:
             one(decorate(case, rng), fam + "+tags")
-        if roll > 0.4:
-            for pc, kinds in pg.perturbations(case, rng, 2 if quick else 3):
+        if roll > 0.5:
+            for pc, kinds in pg.perturbations(case, rng, 2):
                 one(pc, "perturbed")
     return col.result(
         bounds=(
             "input: 1-3 scaffolds x 1-6 contigs, contig lengths from {1,2,7,12,40,150,400,1000}, gaps none/1/10/20/25/200, "
             "both strands, names fasta/own/offset, optional terminal gaps; texel sizes {1,2.5,10,33.3}; <= 3 cuts per "
-            f"scaffold; tiny scope ({tiny_n} cases: lengths {{1,2,7}}, <= 2 contigs, texel 1 and 2.5, "
-            f"<= {tiny_kw['max_cuts']} cuts, every arrangement) is enumerated fully, the rest is seeded sampling; "
+            f"scaffold; tiny scopes ({tiny_n} cases: {pg.describe_scopes(scopes)}; both strands, every cut set / permutation / "
+            "orientation / grouping, painted and unpainted) are enumerated fully, the rest is seeded sampling; "
             f"runs ending in an error: {stats.get('errors', 0)} (allowed); per family: "
             + ", ".join(f"{k}={v}" for k, v in sorted(stats.items()) if k != "errors")
         ),
